@@ -208,23 +208,81 @@ def r2(ctx):
 
 @rule("C06.R4", "summary: one row per platform set, total = sum of all rows, percentage = row / total * 100")
 def r4(ctx):
+    """table specification: on the path that prints one row, the row of platform set K (an element of the table's keys,
+    none filtered out) is [sorted platforms of K, setmap[K], setmap[K] / sum(setmap.values()) * 100] and the total line
+    shows the sum of the rows; how the function computes this (locals, loop form, float(), order of factors) is free"""
+    from ..spec import _strip_parens, atoms, product_form, split_top, tab, vt
+
     repo = ctx.repo
     f = repo.func("report", "summary")
     sm = f.params[0]
-    loops = [n for n in walk_no_nested(f.node) if isinstance(n, ast.For) and sm in u(n.iter)]
-    ctx.require(len(loops) == 1, "summary: row loop not found")
-    lp = loops[0]
-    it = lp.iter
-    ok = isinstance(it, ast.Call) and u(it.func) == "sorted" and u(it.args[0]) in (f"{sm}.keys()", sm)
-    ctx.soft(ok, "report:summary:rows-iterate-all-keys", f"rows must iterate every key of the setmap once: {u(it)}", f.loc(lp))
-    v = u(lp.target)
-    body = u(lp.body)
-    tot = [s for s in walk_no_nested(f.node) if isinstance(s, ast.Assign) and u(s.targets[0]) == "total"]
-    ctx.soft(len(tot) == 1 and u(tot[0].value) == f"sum({sm}.values())", "report:summary:total", "total must be the sum of all setmap values", f.loc())
-    ctx.soft(f"total_count += {sm}[{v}]" in body, "report:summary:total_count", "Total SLOC must accumulate every row's count", f.loc(lp))
-    ctx.soft(f"count = {sm}[{v}]" in body and "str(count)" in body, "report:summary:row-count", "row count must be the setmap entry of the row's platform set", f.loc(lp))
-    ctx.soft(f"float({sm}[{v}]) / float(total) * 100" in body, "report:summary:percent", "percentage must be row / total * 100", f.loc(lp))
-    ctx.soft("', '.join(sorted(" + v + "))" in body, "report:summary:row-name-sorted", "the platform set must be printed with its platforms sorted", f.loc(lp))
+    TOTAL = f"sum({sm}.values())"
+    n_rows = 0
+    for p in tab(f, unroll=1):
+        its = [(m.group(1), v) for k, v in p.atoms.items() for m in [re.match(r"more\((.+)#L\d+,(\d+)\)$", vt(k))] if m]
+        taken = [i for i, v in its if v]
+        if len(taken) != 1:
+            continue
+        ITER = taken[0]
+        # the rows are the table's keys, each once: the iterable is the key view (or the table / its items), at most sorted
+        core = ITER
+        m = re.match(r"sorted\((.+?)(, key=.*)?\)$", core)
+        if m:
+            core = m.group(1)
+        ok_iter = core in (sm, f"{sm}.keys()", f"{sm}.items()", f"list({sm})", f"list({sm}.keys())")
+        ctx.check(ok_iter, "report:summary:rows-iterate-all-keys", f"rows must iterate every key of the setmap once: iterates `{ITER[:80]}`", f.loc())
+        if not ok_iter:
+            continue
+        items = core.endswith(".items()")
+        K = f"{ITER}[0][0]" if items else f"{ITER}[0]"
+        CNT = [f"{sm}[{K}]"] + ([f"{ITER}[0][1]"] if items else [])
+        other = [k for k in atoms(p) if TOTAL not in k and "total" not in k.lower()]
+        ctx.check(not other, "report:summary:rows-iterate-all-keys", f"a row is printed only if {other[:2]}: every platform set of the table must have a row", f.loc())
+        zero = next((v for k, v in atoms(p).items() if k in (f"0 Eq {TOTAL}", f"{TOTAL} Eq 0", f"{TOTAL} Gt 0", f"0 Lt {TOTAL}", TOTAL)), None)
+        if zero is not None and any(k in (f"{TOTAL} Gt 0", f"0 Lt {TOTAL}", TOTAL) for k in atoms(p)):
+            zero = not zero
+        outs = [vt(x) for e in p.effects if e[0] == "call" and e[1] in ("print", f"{f.params[1]}.write") for x in e[2:] if not isinstance(x, tuple)]
+        text = "\n".join(outs)
+        i = text.find("tabulate(")
+        if i < 0:
+            raise AnalysisError("summary: no tabulate(...) in what is printed")
+        depth, j = 0, i + len("tabulate")
+        for j in range(i + len("tabulate"), len(text)):
+            depth += text[j] == "("
+            depth -= text[j] == ")"
+            if depth == 0:
+                break
+        args = split_top(text[i + len("tabulate(") : j])
+        rows = split_top(_strip_parens(args[0])[1:-1]) if args and args[0].startswith("[") else None
+        if not rows or len(rows) != 1 or not rows[0].startswith("["):
+            raise AnalysisError(f"summary: rows of the table not recognised: {args[:1]}")
+        cells = split_top(rows[0][1:-1])
+        if len(cells) != 3:
+            raise AnalysisError(f"summary: a row has {len(cells)} cells, expected [name, count, percent]")
+        n_rows += 1
+        name, count, pct = cells
+        ctx.check(f"sorted({K})" in name and "', '.join(" in name, "report:summary:row-name-sorted", f"the platform set must be printed with its platforms sorted: `{name[:80]}`", f.loc())
+        c = re.fullmatch(r"(?:str\((.+)\)|f'\{(.+)\}')", count)
+        cval = (c.group(1) or c.group(2)) if c else count
+        ctx.check(cval in CNT, "report:summary:row-count", f"row count must be the setmap entry of the row's platform set (`{CNT[0][-40:]}`): `{cval[:80]}`", f.loc())
+        m = re.fullmatch(r"f'\{(.+)\}'", pct)
+        pv = m.group(1) if m else pct
+        if zero:
+            ctx.check("nan" in pv, "report:summary:percent", f"with an empty table (total 0) the percentage must be NaN, not `{pv[:60]}`", f.loc())
+        else:
+            num, den = product_form(pv)
+            if len(num) + len(den) < 2:
+                raise AnalysisError(f"summary: percentage `{pv[:80]}` is not a product/quotient")
+            want = [(sorted(["100.0", cn]), [TOTAL]) for cn in CNT]
+            ctx.check((num, den) in want, "report:summary:percent", f"percentage must be row / total * 100 = `{CNT[0][-30:]} / {TOTAL} * 100`: numerator factors {[x[-40:] for x in num]}, denominator factors {[x[-40:] for x in den]}", f.loc())
+            ctx.check(zero is False, "report:summary:total", f"the percentage divides by {TOTAL} on a path that does not establish that it is non-zero", f.loc())
+        m = re.search(r"Total SLOC: \{(.+?)\}'", text)
+        if not m:
+            raise AnalysisError("summary: `Total SLOC:` line not found in what is printed")
+        tot = _strip_parens(m.group(1))
+        ctx.check(tot in [f"0 Add {cn}" for cn in CNT] + [TOTAL], "report:summary:total_count", f"Total SLOC must be the sum of every row's count: `{tot[:80]}`", f.loc())
+    if not n_rows:
+        raise AnalysisError("summary: no path prints a row: idiom not recognised")
     ctx.floor(6)
 
 
